@@ -445,3 +445,30 @@ def _m_process_memo(mod):
             st.body.insert(2, ast.parse("_models.setdefault((model_folder, model_name), None)").body[0])
             return mod
     return None
+
+
+@SPEC.mutant("staleness scan skips base names seen before", API, "R20.8", "reaches the modification-time comparison")
+def _m_mtime_dedupe(mod):
+    def edit(fn):
+        for lp in ast.walk(fn):
+            if isinstance(lp, ast.For) and "fnmatch.filter" in norm(lp.iter) and any("getmtime" in norm(x) for x in lp.body):
+                lp.body.insert(0, ast.parse("if item in _seen:\n    continue\n").body[0])
+                lp.body.insert(1, ast.parse("_seen.add(item)").body[0])
+                fn.body.insert(0, ast.parse("_seen = set()").body[0])
+                return True
+        return False
+
+    return mod if replace_in_func(mod, "load_model", edit) else None
+
+
+@SPEC.mutant("compile walk prunes directories without package.mo", API, "R20.6", "not pruned")
+def _m_walk_pruned(mod):
+    def edit(fn):
+        for lp in ast.walk(fn):
+            if isinstance(lp, ast.For) and isinstance(lp.iter, ast.Call) and norm(lp.iter.func) == "os.walk" and isinstance(lp.target, ast.Tuple):
+                lp.target.elts[1] = ast.Name(id="_dirs", ctx=ast.Store())
+                lp.body.insert(0, ast.parse("if 'package.mo' not in files:\n    _dirs[:] = []\n").body[0])
+                return True
+        return False
+
+    return mod if replace_in_func(mod, "_compile_model", edit) else None
